@@ -96,20 +96,27 @@ def _plain_ilist(L=None):
 
 
 # ---- K4: PRNG discipline ---------------------------------------------------------------------------
-def k4_prng(do_all: int, dae: int, msa: int, picks: List[int], seeded: bool, seed_zero: bool) -> bool:
+EXAMPLE_SETS = [['ab', '12', '#'], [], [None], ['']]
+
+
+def k4_prng(do_all: int, dae: int, msa: int, picks: List[int], seeded: bool, seed_zero: bool, which: int) -> bool:
     """
     pre: 1 <= do_all <= P['k'] and 1 <= dae <= P['k'] and 0 <= msa <= 1 and len(picks) <= 3
-    pre: all(0 <= p < 3 for p in picks)
+    pre: all(0 <= p < 3 for p in picks) and 0 <= which < len(EXAMPLE_SETS)
     post: __return__
     """
+    examples = EXAMPLE_SETS[0]
+    for k in range(len(EXAMPLE_SETS)):
+        if which == k:
+            examples = EXAMPLE_SETS[k]      # (also: nothing to extract from - empty, only nulls, only empties)
     fr = FakeRandom(picks)
     saved = rx.random
     saved_ilist = rx.ilist
     rx.random = fr
     rx.ilist = _plain_ilist
     try:
-        Extractor(['ab', '12', '#'], size=Size(do_all=do_all, do_all_exceptions=dae, max_sampled_attempts=msa),
-                  seed=(0 if seed_zero else 3) if seeded else None)
+        Extractor(list(examples), size=Size(do_all=do_all, do_all_exceptions=dae, max_sampled_attempts=msa),
+                  seed=(0 if seed_zero else 3) if seeded else None, remove_empties=True)
     finally:
         rx.random = saved
         rx.ilist = saved_ilist
@@ -139,11 +146,11 @@ def k4_prng(do_all: int, dae: int, msa: int, picks: List[int], seeded: bool, see
     return cur == 'CALLER'
 
 
-def lift_k4(do_all, dae, msa, picks, seeded, seed_zero=False):
+def lift_k4(do_all, dae, msa, picks, seeded, seed_zero=False, which=0):
     """public API with the real random module: seeded calls reproducible and leave the global PRNG untouched"""
     import random
-    ex = ['ab', '12', '#', 'cd ef', 'A-1']
-    kw = dict(size=Size(do_all=do_all, do_all_exceptions=dae, max_sampled_attempts=msa))
+    ex = ['ab', '12', '#', 'cd ef', 'A-1'] if which == 0 else EXAMPLE_SETS[which]
+    kw = dict(size=Size(do_all=do_all, do_all_exceptions=dae, max_sampled_attempts=msa), remove_empties=True)
     if not seeded:
         return True
     outs = []
@@ -280,7 +287,7 @@ def _obs():
                   '3 concrete strings with symbolic multiplicities 0..3; 3 orderings', timeout=240))
     obs.append(Ob('K4', 'k4_prng', 'with a seed every random.sample is drawn after seed(seed) and before the saved '
                   'state is put back, and the caller\'s state is restored last; without a seed the generator is '
-                  'only sampled', 'real Extractor on 3 examples; Size(do_all 1..2, do_all_exceptions 1..2, '
+                  'only sampled', 'real Extractor on 3 examples, or none / only a null / only an empty string; Size(do_all 1..2, do_all_exceptions 1..2, '
                   'max_sampled_attempts 0..1) symbolic; <=3 symbolic sample picks; seed None / 0 / 3 symbolic',
                   param={'k': 2}, timeout=300, lift='lift_k4', stubs=['random -> FakeRandom (recording)', 'rexpy.ilist -> plain list (CrossHair cannot extend an array from a generator)']))
     for cap, vlf, tier in ((1, False, 'quick'), (10, False, 'thorough'), (1, True, 'thorough')):
